@@ -121,7 +121,7 @@ def nontrivial(s, rows):
 def scenarios(tier):
     quick = tier == "quick"
     n = 160 if quick else 2000
-    gen = lambda cfg, name, **kw: vf.tlc_scenarios(PID, "Scen_BlockRelay_C11", cfg, name=name, timeout=900, **kw)
+    gen = lambda cfg, name, **kw: vf.tlc_scenarios(PID, "Scen_BlockRelay_C11", cfg, name=name, timeout=900, heap="2g", **kw)
     # (the five generator runs are independent: run side by side)
     with ThreadPoolExecutor(max_workers=8) as ex:
         # (simulated histories: a step that picks the kind and the failure palette of the next one goes before every step)
@@ -192,7 +192,7 @@ def wired_scenarios(tier, first_id):
     """Histories of the entry points that RESOLVE (Scen_BlockRelayResolve.tla): the two scripted families are enumerated
     by TLC and run completely (a wired history costs ~10 ms), the simulated ones are seeded."""
     n = 120 if tier == "quick" else 1500
-    gen = lambda cfg, name, **kw: vf.tlc_scenarios(PID, "Scen_BlockRelayResolve", cfg, name=name, timeout=900, **kw)
+    gen = lambda cfg, name, **kw: vf.tlc_scenarios(PID, "Scen_BlockRelayResolve", cfg, name=name, timeout=900, heap="1g", **kw)
     with ThreadPoolExecutor(max_workers=3) as ex:
         f_poison = ex.submit(gen, "Scen_BlockRelayResolve_poison.cfg", "scen-res-poison", exhaustive=True)
         f_refetch = ex.submit(gen, "Scen_BlockRelayResolve_refetch.cfg", "scen-res-refetch", exhaustive=True)
@@ -215,10 +215,10 @@ RESOLVE_CONTROLS = ["memo_pubkey", "memo_pubkey_fwd", "memo_pubkey_unblind", "me
 
 def resolve_design_checks(v, tier):
     with ThreadPoolExecutor(max_workers=4) as ex:
-        mcs = [ex.submit(vf.tlc_exhaustive, PID, "BlockRelayResolve", c, workers=2, timeout=900, heap="2g",
+        mcs = [ex.submit(vf.tlc_exhaustive, PID, "BlockRelayResolve", c, workers=2, timeout=900, heap="1g",
                          name="mc-res-" + c[len("MC_BlockRelayResolve"):-4].strip("_")) for c in RESOLVE_MC]
         rs = list(ex.map(lambda c: vf.tlc(PID, "mc-res-" + c, "BlockRelayResolve", "MC_BlockRelayResolve_%s.cfg" % c,
-                                          workers=2, timeout=600), RESOLVE_CONTROLS))
+                                          workers=2, timeout=600, heap="1g"), RESOLVE_CONTROLS))
         for c, r in zip(RESOLVE_CONTROLS, rs):
             if not (r["kind"] == "invariant" and r["violated"] in ("RegistrationsFollowConfig", "PreparationsFollowConfig")):
                 raise vf.Broken("the control model %s (resolved settings remembered per PUBLIC KEY until the next install, "
@@ -260,7 +260,10 @@ def design_checks(v, tier):
     if tier == "thorough":
         mcs += [("MC_BlockRelay_C11_fanout3.cfg", 1500), ("MC_BlockRelay_C11_big.cfg", 1500), ("MC_BlockRelay_C11_big2.cfg", 1500)]
     mc_pool = ThreadPoolExecutor(max_workers=len(mcs))
-    mc_futs = [mc_pool.submit(vf.tlc_exhaustive, PID, "BlockRelay", c, workers=4, timeout=t) for c, t in mcs]
+    # (heaps: the largest quick configuration has 58 k states; the machine's 62 GB are shared by every builder's TLC runs
+    # and the kernel's OOM killer ends the largest JVMs first)
+    mc_heap = "2g" if tier == "quick" else "4g"
+    mc_futs = [mc_pool.submit(vf.tlc_exhaustive, PID, "BlockRelay", c, workers=4, timeout=t, heap=mc_heap) for c, t in mcs]
     # the model must keep its discriminating power: a fan-out whose calls share one context that the first
     # failing call cancels (errgroup.WithContext) violates the isolation invariants; and - state carried on the
     # instance between calls - a per-relay submission slot that is not given back after a relay's error makes a
@@ -277,7 +280,7 @@ def design_checks(v, tier):
     with ThreadPoolExecutor(max_workers=len(jobs)) as ex:
         rs = dict(zip([j[0] for j in jobs],
                       ex.map(lambda j: vf.tlc(PID, "mc-" + j[0], "BlockRelay", "MC_BlockRelay_C11_%s.cfg" % j[0],
-                                              workers=2, timeout=j[1]), jobs)))
+                                              workers=2, timeout=j[1], heap="2g" if j[1] <= 900 else "4g"), jobs)))
     for name, inv in SHARED_CANCEL:
         r = rs["sharedcancel_" + name]
         if not (r["kind"] == "invariant" and r["violated"] == inv):
@@ -349,11 +352,11 @@ def run(tier):
     try:
         if wsc:
             vf.conformance(v, wsc, wired_driver, WIRED_TRACE[0], WIRED_TRACE[1], sig_of, wired_nontrivial, tlc_timeout=900,
-                           chunk=200, max_failures=3)
+                           chunk=200, max_failures=3, heap="1g")
     finally:
         vf.save_replay = orig
     if sc:
-        vf.conformance(v, sc, driver, TRACE[0], TRACE[1], sig_of, nontrivial, tlc_timeout=1500, chunk=150)
+        vf.conformance(v, sc, driver, TRACE[0], TRACE[1], sig_of, nontrivial, tlc_timeout=1500, chunk=150, heap="2g")
     v.coverage["rule"] = ("input sequences defined by Scen_BlockRelay_C11.tla: every failure combination of one round per "
                           "document, every sequence of three configuration changes with a round after each, a round with "
                           "every failure combination followed by further rounds and a forwarding call on the same instance, "
